@@ -928,7 +928,11 @@ class Interp:
                     y = self.an.on_loop_exit(self, ctx, y, fr)
                     if y is not None:
                         o.nxt.append(self.drop_loop_locals(s, y, fr))
-                work += [self.an.on_back_edge(self, self.back_edge(st, cur, y)) or y for y in r.nxt + r.cont]
+                self.loopctx.append(ctx)
+                try:
+                    work += [self.an.on_back_edge(self, self.back_edge(st, cur, y)) or y for y in r.nxt + r.cont]
+                finally:
+                    self.loopctx.pop()
         o.nxt = dedup(o.nxt)
         return o
 
@@ -1115,6 +1119,18 @@ class Interp:
                         assigned.add(t.id)
                     else:
                         return None
+        # collections the body adds to: their contents are taken from the summary pass (each addition carries
+        # the conditions on the element under which it is made); any other mutation of a local is not a fold
+        mutated = set()
+        for n in _walk_stmts(s.body):
+            for c in ast.walk(n) if isinstance(n, (ast.Expr, ast.Assign, ast.AugAssign, ast.If)) else ():
+                if isinstance(c, ast.Call) and isinstance(c.func, ast.Attribute) and isinstance(c.func.value, ast.Name) \
+                        and c.func.value.id != 'self' and st.var(fr.fid, c.func.value.id) is not None:
+                    if c.func.attr in ADDERS or c.func.attr in EXTENDERS:
+                        mutated.add(c.func.value.id)
+                    elif c.func.attr in SCRAMBLERS:
+                        return None
+        mvals = {}
         flags = [n for n in assigned
                  if T.is_const(st.var(fr.fid, n, ('unk', n))) and isinstance(st.var(fr.fid, n)[1], bool)]
         if len(flags) != 1:
@@ -1147,6 +1163,8 @@ class Interp:
                     for x in lst:
                         if x.auto != b.auto:
                             return None
+                        for mn in mutated:
+                            mvals.setdefault(mn, set()).add(x.var(fr.fid, mn))
                         fv = x.var(fr.fid, f)
                         new = frozenset((k, val) for k, val in x.facts.items()
                                         if st.facts.get(k) != val)
@@ -1179,6 +1197,10 @@ class Interp:
             base = base.with_var(fr.fid, n, ('unk', n))
         where = self.where(s, fr)
         base = self.drop_loop_locals(s, base, fr)
+        for mn, vals in mvals.items():
+            vals = [v for v in vals if v is not None]
+            if vals:
+                base = base.with_var(fr.fid, mn, T.union(*vals))
         if v0 == sticky:
             return [base]
         stay = frozenset(r[1] for r in results[not sticky] if r[0] == (not sticky))
